@@ -39,6 +39,7 @@ type c25Chan struct {
 	entered chan *c25Call
 	mu      sync.Mutex
 	epoch   string
+	closed  bool
 }
 
 func (c *c25Chan) epochNow() string {
@@ -93,6 +94,12 @@ func c25NewEnv(t *testing.T) *c25Env {
 		e.mu.Unlock()
 		if c == nil || len(ev.Items) != 1 {
 			return SharedPollResult{}, fmt.Errorf("unexpected poll %v", ev)
+		}
+		c.mu.Lock()
+		closed := c.closed
+		c.mu.Unlock()
+		if closed {
+			return SharedPollResult{Epoch: c.epochNow()}, nil // the scenario is over
 		}
 		if ev.Items[0].Key == "kz" {
 			// barrier key tracked by a helper connection: the refresh worker handles notifications one at a
@@ -299,68 +306,78 @@ func (s *c25Scn) drain() []string {
 	}
 }
 
-// nextEvent waits for the next backend call (a real one, or the barrier key)
-func (s *c25Scn) nextEvent() *c25Call {
-	select {
-	case call := <-s.cc.entered:
-		return call
-	case <-time.After(10 * time.Second):
-		s.bad = "no backend call although a barrier notification is queued"
-		return &c25Call{key: -1}
-	}
+// idle: the refresh worker of the channel has nothing queued and is not inside a poll cycle (it holds the
+// manager's semaphore for the whole cycle; finished scenarios never hold it)
+func (s *c25Scn) idle() bool {
+	s.e.node.sharedPollManager.mu.RLock()
+	st := s.e.node.sharedPollManager.channels[s.ch]
+	s.e.node.sharedPollManager.mu.RUnlock()
+	return (st == nil || len(st.notifCh) == 0) && len(s.e.node.sharedPollManager.sem) == 0
 }
 
-// settle: queue a barrier notification and consume backend calls until either a real call is held at
-// the gate (recorded as APollReq) or every queued barrier has been answered (worker idle)
+// pump consumes backend calls until a real one is held at the gate (returned) or the worker is idle (nil).
+// Barrier-key calls answer themselves; they only prove that everything queued before them was handled.
+func (s *c25Scn) pump() *c25Call {
+	deadline := time.Now().Add(10 * time.Second)
+	calm := 0
+	for time.Now().Before(deadline) {
+		select {
+		case call := <-s.cc.entered:
+			if call.key >= 0 {
+				return call
+			}
+			calm = 0
+			continue
+		default:
+		}
+		if s.idle() {
+			calm++
+			if calm >= 6 {
+				return nil
+			}
+		} else {
+			calm = 0
+		}
+		time.Sleep(200 * time.Microsecond)
+	}
+	s.bad = "refresh worker does not become idle"
+	return nil
+}
+
+func (s *c25Scn) hold(call *c25Call) {
+	s.pending = call
+	s.act(vApp("APollReq", vNat(call.key)), nil, fmt.Sprintf("poll request k%d with version %d", call.key, call.reqv))
+}
+
+// settle: after an operation that may have queued notifications, a barrier notification is queued behind
+// them and the worker is pumped until a real call is held or it is idle
 func (s *c25Scn) settle() {
 	if s.pending != nil || s.bad != "" {
 		return
 	}
 	s.e.node.SharedPollNotify([]SharedPollNotificationItem{{Channel: s.ch, Key: "kz"}})
-	s.barriers++
-	for s.barriers > 0 && s.bad == "" {
-		call := s.nextEvent()
-		if call.key < 0 {
-			s.barriers--
-			continue
-		}
-		s.pending = call
-		s.act(vApp("APollReq", vNat(call.key)), nil, fmt.Sprintf("poll request k%d with version %d", call.key, call.reqv))
-		return
+	if call := s.pump(); call != nil {
+		s.hold(call)
 	}
 }
 
-// after releasing a held call: the next backend call (there is always a barrier queued behind a held call)
-// proves that the response has been applied completely
+// after releasing a held call: wait until its response has been applied (the next call, or idleness, proves it)
 func (s *c25Scn) waitApplied() {
-	if s.barriers == 0 {
-		s.bad = "no barrier behind the held call"
-		return
+	if call := s.pump(); call != nil {
+		s.late = call
 	}
-	call := s.nextEvent()
-	if call.key < 0 {
-		s.barriers--
-		return
-	}
-	s.late = call
 }
 
-// continue consuming what is queued behind an answered call
+// continue with what was queued behind an answered call
 func (s *c25Scn) resume() {
 	if s.late != nil {
-		s.pending, s.late = s.late, nil
-		s.act(vApp("APollReq", vNat(s.pending.key)), nil, fmt.Sprintf("poll request k%d with version %d", s.pending.key, s.pending.reqv))
+		call := s.late
+		s.late = nil
+		s.hold(call)
 		return
 	}
-	for s.barriers > 0 && s.bad == "" {
-		call := s.nextEvent()
-		if call.key < 0 {
-			s.barriers--
-			continue
-		}
-		s.pending = call
-		s.act(vApp("APollReq", vNat(call.key)), nil, fmt.Sprintf("poll request k%d with version %d", call.key, call.reqv))
-		return
+	if call := s.pump(); call != nil {
+		s.hold(call)
 	}
 }
 
@@ -528,7 +545,6 @@ func (s *c25Scn) doPublish(k int, flip bool) {
 		if len(rw2.replies) == 0 || rw2.replies[0].Error != nil {
 			s.bad = "helper re-track failed"
 		}
-		s.barriers++
 	} else if len(flipPush) > 0 {
 		s.bad = "unsubscribe push without an epoch change"
 	}
@@ -579,13 +595,16 @@ func c25NewScn(e *c25Env, r *rand.Rand, name string, json, keep bool) *c25Scn {
 	for i := 0; i < 2000 && len(rw2.replies) == 0; i++ {
 		time.Sleep(time.Millisecond)
 	}
-	if call := s.nextEvent(); call.key >= 0 {
+	if call := s.pump(); call != nil {
 		s.bad = "unexpected first backend call"
 	}
 	return s
 }
 
 func (s *c25Scn) close() {
+	s.cc.mu.Lock()
+	s.cc.closed = true
+	s.cc.mu.Unlock()
 	for _, c := range []*c25Call{s.pending, s.late} {
 		if c != nil {
 			c.resp <- c25Resp{bv: 0, epoch: s.epoch}
